@@ -4,10 +4,14 @@ From Coq Require Import List ZArith NArith Bool Arith.
 From Jiva Require Import Meta.Model.
 Import ListNotations.
 
-(** Which variant of [encodeToFile] /repo has: [false] = the test on [err] (the code as it is),
-    [true] = the test on [lastErr] (after .work/patches/f5-encode-err.diff).  The correspondence
-    checks and the C08 property file are instantiated with this. *)
-Definition code_fixed : bool := false.
+(** Which of the repairs /repo has (see [cfg] in Model.v; patches in .work/patches).  All [false] =
+    the code as it is.  The correspondence checks and the property files are instantiated with this:
+    when a patch is committed to /repo, flip its flag here. *)
+Definition code_fixed : bool := false.        (* f5-encode-err.diff *)
+Definition code_fix_dup : bool := false.      (* f9-snapshot-dup.diff *)
+Definition code_fix_rev : bool := false.      (* f10-revert-target.diff *)
+Definition code_fix_commit : bool := false.   (* f11-createdisk-commit.diff *)
+Definition code_cfg (maxlen : nat) : cfg := mkcfg maxlen code_fixed code_fix_dup code_fix_rev code_fix_commit.
 
 (** ** equality tests *)
 Definition on_eqb (a b : option N) : bool :=
@@ -187,6 +191,8 @@ Definition wf_obs (o : obs) : bool :=
   | None, _, _ => true                                (* nothing is open: nothing to be consistent *)
   | Some _, Some l, Some i =>
       nodupb l
+      && nodupb (flat_map (fun d => match lookup_file (o_dir o) (Img d) with
+                                    | Some (KImg c _ _) => [c] | _ => [] end) l)
       && (match l with h :: _ => odname_eqb (i_head i) (Some h) | [] => false end)
       && Nat.eqb (length (o_disks o)) (length l)
       && path_ok o None l
@@ -200,9 +206,12 @@ Definition wf_obs (o : obs) : bool :=
 (** what has to survive a refused / failed operation and a close + open *)
 Definition img_tok (o : obs) (d : dname) : option (dname * list N) :=
   match lookup_file (o_dir o) (Img d) with Some (KImg c _ t) => Some (c, t) | _ => None end.
+(** same content.  The hard-link representative is not compared: it depends on names outside the
+    chain (a stale old head is a second name of the latest snapshot's inode); [wf_obs] demands
+    instead that the members of one chain are pairwise different inodes. *)
 Definition tok_eqb (a b : option (dname * list N)) : bool :=
   match a, b with
-  | Some (c1, t1), Some (c2, t2) => dname_eqb c1 c2 && list_eqb N.eqb t1 t2
+  | Some (_, t1), Some (_, t2) => list_eqb N.eqb t1 t2
   | _, _ => false
   end.
 Definition member_same (full : bool) (a b : obs) (d : dname) : bool :=
@@ -228,9 +237,10 @@ Definition is_open (o : obs) : bool := match o_mode o with Some _ => true | None
 
 (** one step.  [lo]: the last observation with the replica open (for the reopen round trip). *)
 Definition c12_step (lo : option obs) (prev : obs) (t : op) (cur : obs) : bool :=
-  match o_res cur with
-  | CDied => false                                       (* no fault is injected in these histories *)
-  | _ =>
+  match t, o_res cur with
+  | OCrashIn _ _, _ => negb (is_open cur)                (* the process is gone; judged at the next open *)
+  | _, CDied => false                                    (* no fault is injected in these histories *)
+  | _, _ =>
     wf_obs cur
     && (if rclass_eqb (o_res cur) CErr && is_open prev
         then is_open cur && same_chain true prev cur && same_info_modulo_dirty prev cur
@@ -311,8 +321,196 @@ Fixpoint flags_from (g : cfg) (s : st) (os : list op) (reopen_pending : bool) : 
       let f2 := match r with ResRefused => if opened then 2 else 0 | _ => 0 end in
       let f4 := match o, r with OOpen, ResOk => if reopen_pending then 4 else 0 | _, _ => 0 end in
       let f8 := match o, r with OPrep _, ResOk => if Nat.leb 1 n then 8 else 0 | _, _ => 0 end in
-      let pend := match o with OClose | OCrash => opened || reopen_pending | OOpen => false | _ => reopen_pending end in
+      let pend := match o with OClose | OCrash | OCrashIn _ _ => opened || reopen_pending | OOpen => false | _ => reopen_pending end in
       Nat.lor (Nat.lor (Nat.lor f1 f2) (Nat.lor f4 f8)) (flags_from g s1 t pend)
   end.
 Definition case_flags (c : case) : nat := flags_from (c_cfg c) init (c_ops c) false.
 Definition coverage (cs : list case) : list nat := map case_flags cs.
+
+(** ** T1v: the operation under test as a sequence of system calls *)
+
+(** canonical form of the system calls strace shows (paths reduced to names, fds to the name they
+    were opened on; stat/read/close/pread are not traced) *)
+Inductive sys :=
+| SOpenDir                                   (* openat(dir, O_RDONLY) *)
+| SOpenR (n : name)                          (* openat(file, O_RDONLY) *)
+| SOpenW (n : name) (creat trunc : bool)     (* openat(file, O_RDWR [|O_CREAT] [|O_TRUNC]) *)
+| SWrite (n : name)
+| SRename (a b : name)
+| SLink (a b : name)
+| SUnlink (n : name)
+| STruncate (n : name)
+| SFsync
+| SPwrite (n : name)
+| SMkdir.
+
+Definition sys_of_call (c : call) : list sys :=
+  match c with
+  | CStat _ | CClose _ | CPreadCounter => []
+  | COpenTrunc n => [SOpenW n false true]
+  | COpenCreatTrunc n => [SOpenW n true true]
+  | COpenRW n => [SOpenW n false false]
+  | COpenCreat n => [SOpenW n true false]
+  | CWriteAll n _ => [SWrite n]
+  | CRename a b => [SRename a b]
+  | CLink a b => [SLink a b]
+  | CUnlink n => [SUnlink n]
+  | CTruncate n _ => [STruncate n]
+  | CFsyncDir => [SOpenDir; SFsync]
+  | CMkdirDir => [SMkdir]
+  | CReadDir => [SOpenDir]
+  | CReadFile n => [SOpenR n]
+  | CPwriteCounter _ => [SPwrite Counter]
+  | CPwriteImg n => [SPwrite n]
+  end.
+
+Local Open Scope N_scope.
+Definition dcode (d : dname) : N :=
+  match d with Head n => 3 * N.of_nat n | Snap s => 3 * s + 1 | Odd k => 3 * k + 2 end.
+Definition ncode (n : name) : N :=
+  match n with
+  | Img d => 8 * dcode d + 1 | Meta d => 8 * dcode d + 2 | MetaTmp d => 8 * dcode d + 3
+  | Vol => 4 | VolTmp => 5 | Counter => 6
+  end.
+Definition sys_code (s : sys) : N * N * N :=
+  match s with
+  | SOpenDir => (1, 0, 0)
+  | SOpenR n => (2, ncode n, 0)
+  | SOpenW n c t => (3, ncode n, (if c then 2 else 0) + (if t then 1 else 0))
+  | SWrite n => (4, ncode n, 0)
+  | SRename a b => (5, ncode a, ncode b)
+  | SLink a b => (6, ncode a, ncode b)
+  | SUnlink n => (7, ncode n, 0)
+  | STruncate n => (8, ncode n, 0)
+  | SFsync => (9, 0, 0)
+  | SPwrite n => (10, ncode n, 0)
+  | SMkdir => (11, 0, 0)
+  end.
+
+Local Close Scope N_scope.
+
+(** canonical syscall-trace comparison: the model's trace as (index of the model call, code) *)
+Fixpoint sys_trace (i : nat) (t : trace) : list (nat * (N * N * N)) :=
+  match t with
+  | [] => []
+  | (c, _) :: t' => map (fun s => (i, sys_code s)) (sys_of_call c) ++ sys_trace (S i) t'
+  end.
+
+(** C08 durability as a lint over a canonical trace (codes as [sys_code]): after the last call that
+    changes the directory (rename, link, unlink, creating open) there is an fsync of the directory. *)
+Definition changes_dir (c : N * N * N) : bool :=
+  let '(t, _, f) := c in
+  N.eqb t 5 || N.eqb t 6 || N.eqb t 7 || (N.eqb t 3 && N.leb 2 f).
+Definition is_dirsync (prev c : N * N * N) : bool :=
+  let '(t0, _, _) := prev in let '(t, _, _) := c in N.eqb t0 1 && N.eqb t 9.
+(** [pending]: a directory change not yet followed by a directory sync *)
+Fixpoint durable_from (pending : bool) (prev : N * N * N) (l : list (N * N * N)) : bool :=
+  match l with
+  | [] => negb pending
+  | c :: t => durable_from (if is_dirsync prev c then false else pending || changes_dir c) c t
+  end.
+Definition durable_codes (l : list (N * N * N)) : bool := durable_from false (0, 0, 0)%N l.
+
+(** a victim case: a history producing the directory, then (open; set mode RW;) one operation *)
+Record vcase := mkvcase { vc_cfg : cfg; vc_univ : list dname; vc_pre : list op; vc_op : op }.
+
+Definition vic_state (v : vcase) : st :=
+  let s0 := run_ops (vc_cfg v) init (vc_pre v) in
+  let s1 := mkst (s_fs s0) None in
+  match vc_op v with
+  | OOpen => s1
+  | _ => run_ops (vc_cfg v) s1 [OOpen; OSetMode (Some RW)]
+  end.
+Definition vic_prog (v : vcase) : prog (option mem * res * nat) :=
+  op_prog (vc_cfg v) (s_mem (vic_state v)) (vc_op v).
+
+Definition vic_trace (v : vcase) : list (nat * (N * N * N)) :=
+  let '(_, t, _) := run (vic_prog v) (s_fs (vic_state v)) in sys_trace 0 t.
+Definition vic_ncalls (v : vcase) : nat :=
+  let '(_, t, _) := run (vic_prog v) (s_fs (vic_state v)) in length t.
+
+Definition out_class {A} (o : outcome (A * res * nat)) : rclass :=
+  match o with
+  | Done (_, Ok, _) => COk
+  | Done (_, _, _) => CErr
+  | _ => CDied
+  end.
+
+(** the directory a faulty run leaves, what the operation returned, and what a restarted process
+    then observes (open + nothing else) *)
+Definition vic_run (v : vcase) (crash_at : option nat) (fail_at : option (nat * errno)) : rclass * obs * obs :=
+  let g := vc_cfg v in
+  let '(w, _, o) := exec (vic_prog v) (s_fs (vic_state v)) 0 crash_at fail_at in
+  let s := mkst w None in
+  let '(s1, r, n) := step g s OOpen in
+  (out_class o, observe g (vc_univ v) s ResOk 0, observe g (vc_univ v) s1 r n).
+
+(** ** C08 as predicates on observed reopen results.
+    [pre]: reopen of the directory as it was when the operation started; [post]: reopen after the
+    operation completed; both observed on the same side as [cur]. *)
+Definition view_eqb (a b : obs) : bool :=
+  rclass_eqb (o_res a) COk && rclass_eqb (o_res b) COk
+  && same_chain false a b && same_info_modulo_dirty a b.
+
+Definition c08_kill_ok (pre post cur : obs) : bool :=
+  wf_obs cur && is_open cur && (view_eqb pre cur || view_eqb post cur).
+
+(** [r]: what the operation returned when one of its calls failed *)
+Definition c08_fail_ok (pre post : obs) (r : rclass) (cur : obs) : bool :=
+  match r with
+  | COk => wf_obs cur && is_open cur && view_eqb post cur
+  | _ => wf_obs cur && is_open cur && (view_eqb pre cur || view_eqb post cur)
+  end.
+(** the strict reading: an error is reported only over the old state *)
+Definition c08_fail_strict (pre post : obs) (r : rclass) (cur : obs) : bool :=
+  match r with
+  | COk => wf_obs cur && is_open cur && view_eqb post cur
+  | CErr => wf_obs cur && is_open cur && view_eqb pre cur
+  | CDied => wf_obs cur && is_open cur && (view_eqb pre cur || view_eqb post cur)
+  end.
+
+(** one observed faulty run of the implementation: kind (None = kill before model call [i];
+    Some e = call [i] fails with e), result, directory as left, reopen observation *)
+Record vrun := mkvrun { vr_at : nat; vr_err : option errno; vr_res : rclass; vr_dir : obs; vr_open : obs }.
+
+Definition side (pre post cur : obs) : nat :=        (* 1 pre, 2 post, 3 both, 0 neither *)
+  (if view_eqb pre cur then 1 else 0) + (if view_eqb post cur then 2 else 0).
+
+(** per run: (index, directory diff field, reopen diff field, result agrees, oracle on the
+    implementation's observation, strict oracle, model's side, implementation's side) *)
+Definition check_vrun (v : vcase) (ipre ipost : obs) (mpre mpost : obs) (x : vrun)
+  : nat * nat * nat * bool * bool * bool * nat * nat :=
+  let '(mr, md, mo) := match vr_err x with
+                       | None => vic_run v (Some (vr_at x)) None
+                       | Some e => vic_run v None (Some (vr_at x, e))
+                       end in
+  let orc := match vr_err x with
+             | None => c08_kill_ok ipre ipost (vr_open x)
+             | Some _ => c08_fail_ok ipre ipost (vr_res x) (vr_open x)
+             end in
+  let strict := match vr_err x with
+                | None => orc
+                | Some _ => c08_fail_strict ipre ipost (vr_res x) (vr_open x)
+                end in
+  (vr_at x, obs_diff md (vr_dir x), obs_diff mo (vr_open x),
+   match vr_err x with None => true | Some _ => rclass_eqb mr (vr_res x) end,
+   orc, strict, side mpre mpost mo, side ipre ipost (vr_open x)).
+
+Definition check_vcase (v : vcase) (ipre ipost : obs) (xs : list vrun) :=
+  let n := vic_ncalls v in
+  let '(_, _, mpre) := vic_run v (Some 0) None in
+  let '(_, _, mpost) := vic_run v None None in
+  map (check_vrun v ipre ipost mpre mpost) xs.
+
+(** model-only exploration: for every call index the side of a kill and, per errno, result class and side *)
+Definition vic_kill_sides (v : vcase) : list nat :=
+  let n := vic_ncalls v in
+  let '(_, _, mpre) := vic_run v (Some 0) None in
+  let '(_, _, mpost) := vic_run v None None in
+  map (fun k => let '(_, _, mo) := vic_run v (Some k) None in side mpre mpost mo) (seq 0 (S n)).
+Definition vic_fail_sides (v : vcase) (e : errno) : list (rclass * nat * bool) :=
+  let n := vic_ncalls v in
+  let '(_, _, mpre) := vic_run v (Some 0) None in
+  let '(_, _, mpost) := vic_run v None None in
+  map (fun k => let '(r, _, mo) := vic_run v None (Some (k, e)) in
+                (r, side mpre mpost mo, c08_fail_ok mpre mpost r mo)) (seq 0 n).
